@@ -1117,8 +1117,13 @@ func (x *Exec) loadElem(fr *Frame, st *State, b Backing, idx Term, et types.Type
 		stt, key := structOf(et)
 		return x.loadStruct(st, app(SInt, "elemref", b.Ref, idx), stt, key)
 	case KIface:
-		return VIface{Select(Select(x.heapGet(st, "elems|iface#t", arrOf(arrOf(SInt))), b.Ref), idx),
-			Select(Select(x.heapGet(st, "elems|iface#v", arrOf(arrOf(SInt))), b.Ref), idx)}
+		tag := Select(Select(x.heapGet(st, "elems|iface#t", arrOf(arrOf(SInt))), b.Ref), idx)
+		if n, ok := et.(*types.Named); ok && n.Obj().Pkg() != nil && strings.HasSuffix(n.Obj().Pkg().Path(), "reflect/protoreflect") {
+			// descriptor slices built by the protobuf runtime / makeTarget never hold nil entries
+			x.vc.assumption("slices of protoreflect descriptors contain no nil entries")
+			x.assume(st, Gt(tag, IntLit(0)))
+		}
+		return VIface{tag, Select(Select(x.heapGet(st, "elems|iface#v", arrOf(arrOf(SInt))), b.Ref), idx)}
 	case KSlice:
 		return x.fresh(et, "elem")
 	}
